@@ -35,6 +35,7 @@ import (
 
 	"github.com/osrg/gobgp/v4/api"
 	"github.com/osrg/gobgp/v4/internal/pkg/table"
+	"github.com/osrg/gobgp/v4/pkg/apiutil"
 	"github.com/osrg/gobgp/v4/pkg/packet/bgp"
 )
 
@@ -72,8 +73,9 @@ type c15Stmt struct {
 	hasAsp       bool
 	asp          []c15AspEnt // as-path-set members
 	med, lp, add *uint32
-	route        int // 0 none, 1 accept, 2 reject
-	lenOp, lenN  int // as-path-length condition: lenOp 0 none, 1 eq, 2 ge, 3 le
+	route        int    // 0 none, 1 accept, 2 reject
+	lenOp, lenN  int    // as-path-length condition: lenOp 0 none, 1 eq, 2 ge, 3 le
+	medEq, lpEq  uint32 // med-eq / local-pref-eq conditions (0: none)
 }
 
 type c15Pol struct {
@@ -121,6 +123,7 @@ func (p *c15Pol) line(dir string) string {
 		for _, e := range s.asp {
 			fmt.Fprintf(&sb, " %d %d", e.mode, e.asn)
 		}
+		fmt.Fprintf(&sb, " %d %d %d %d", c15B(s.medEq != 0), s.medEq, c15B(s.lpEq != 0), s.lpEq)
 	}
 	return sb.String()
 }
@@ -171,6 +174,13 @@ func c15ParsePol(f []string) (string, c15Pol) {
 			i += 2
 		}
 		i++
+		if n(i) == 1 {
+			s.medEq = uint32(n(i + 1))
+		}
+		if n(i+2) == 1 {
+			s.lpEq = uint32(n(i + 3))
+		}
+		i += 4
 		p.stmts = append(p.stmts, s)
 	}
 	return f[1], p
@@ -325,6 +335,12 @@ func (cw *c15World) apiPolicy(name string, tag string, pol c15Pol) (*api.Policy,
 		}
 		if s.lenOp != 0 {
 			st.Conditions.AsPathLength = &api.AsPathLength{Type: []api.Comparison{api.Comparison_COMPARISON_EQ, api.Comparison_COMPARISON_GE, api.Comparison_COMPARISON_LE}[s.lenOp-1], Length: uint32(s.lenN)}
+		}
+		if s.medEq != 0 {
+			st.Conditions.MedEq = &api.MedEq{Value: s.medEq}
+		}
+		if s.lpEq != 0 {
+			st.Conditions.LocalPrefEq = &api.LocalPrefEq{Value: s.lpEq}
 		}
 		if s.med != nil {
 			st.Actions.Med = &api.MedAction{Type: api.MedAction_TYPE_REPLACE, Value: int64(*s.med)}
@@ -522,7 +538,7 @@ func c15SameButSets(p, q c15Pol) bool {
 	eq := func(a, b *uint32) bool { return (a == nil) == (b == nil) && (a == nil || *a == *b) }
 	for i := range p.stmts {
 		a, b := p.stmts[i], q.stmts[i]
-		if a.route != b.route || a.lenOp != b.lenOp || a.lenN != b.lenN || !eq(a.med, b.med) || !eq(a.lp, b.lp) || !eq(a.add, b.add) {
+		if a.route != b.route || a.lenOp != b.lenOp || a.lenN != b.lenN || a.medEq != b.medEq || a.lpEq != b.lpEq || !eq(a.med, b.med) || !eq(a.lp, b.lp) || !eq(a.add, b.add) {
 			return false
 		}
 		for kind := 0; kind < 4; kind++ {
@@ -601,6 +617,16 @@ func c15GenStmt(r *vRand, d int, nPeers int) c15Stmt {
 		if r.chance(50) {
 			s.hasComm, s.comms = false, nil
 		}
+	}
+	if r.chance(15) {
+		// MED is not sent to eBGP peers: med-eq sees it in the Loc-RIB path, not as advertised
+		s.medEq = uint32(r.pick(10, 20, 5, 50))
+		if r.chance(50) {
+			s.hasComm, s.comms = false, nil
+		}
+	}
+	if r.chance(10) {
+		s.lpEq = uint32(r.pick(100, 100, 200, 50, 300))
 	}
 	if r.chance(35) {
 		s.hasPfx, s.pfx = true, c15GenPfxSet(r)
@@ -1040,6 +1066,8 @@ type c15Run struct {
 	// depends on that order (both outcomes satisfy the weak invariant of Props/C15 and the next
 	// soft reset out makes them equal), so the view is not compared until peer i is synced again.
 	fuzzy map[int]bool
+	// noModel: an oracle-only run (concurrent rounds): the history is not sent to the model
+	noModel bool
 }
 
 func (rn *c15Run) note(f string, a ...any) {
@@ -1142,6 +1170,77 @@ func (rn *c15Run) freshExport(i int, after string) {
 			}
 			rn.o.fail(fmt.Sprintf("%s:%s", cls, strings.Fields(after)[0]), map[string]any{"peer": i, "prefix": k, "holds": have, "fresh_export": want, "after": after, "history": rn.hist()})
 		}
+	}
+	rn.adjOutObservers(i, after)
+}
+
+type c15AdjOutEntry struct {
+	digest   string
+	filtered bool
+}
+
+// adjOut reads the peer's Adj-RIB-Out through the management API (ListPath ADJ_OUT).
+func (cw *c15World) adjOut(i int, enableFiltered bool) map[int]c15AdjOutEntry {
+	out := map[int]c15AdjOutEntry{}
+	err := cw.w.s.ListPath(apiutil.ListPathRequest{TableType: api.TableType_TABLE_TYPE_ADJ_OUT, Family: bgp.RF_IPv4_UC,
+		Name: cw.w.peers[i].spec.addr.String(), EnableFiltered: enableFiltered}, func(prefix bgp.NLRI, paths []*apiutil.Path) {
+		for _, p := range paths {
+			out[c15PfxIdx(prefix.String())] = c15AdjOutEntry{digest: vwDigest(p.Attrs), filtered: p.Filtered}
+		}
+	})
+	if err != nil {
+		cw.t.Fatalf("ListPath adj-out: %v", err)
+	}
+	return out
+}
+
+// adjOutObservers: the THREE observers of a peer's Adj-RIB-Out agree — what the peer holds (the
+// UPDATEs it was sent), ListPath ADJ_OUT, and ListPath ADJ_OUT with EnableFiltered (every best
+// path that passes loop prevention, flagged `filtered` iff the current export policy rejects it
+// AS IT IS ADVERTISED). Called when the peer is in sync with the export policy (after a reset
+// out / refresh / initial transfer, and while the policy has not changed since).
+func (rn *c15Run) adjOutObservers(i int, after string) {
+	cw := rn.cw
+	if !cw.w.peers[i].up {
+		return
+	}
+	plain, filt := cw.adjOut(i, false), cw.adjOut(i, true)
+	op := strings.Fields(after)[0]
+	var ask []string
+	for k := range c01Prefixes {
+		wire, held := cw.views[i][k]
+		pl, inPlain := plain[k]
+		fl, inFilt := filt[k]
+		det := func() map[string]any {
+			return map[string]any{"peer": i, "prefix": k, "wire_holds": held, "adj_out_lists": inPlain, "adj_out_filtered_lists": inFilt,
+				"filtered_flag": fl.filtered, "after": after, "history": rn.hist()}
+		}
+		switch {
+		case held != inPlain:
+			rn.o.fail("adj-out-listing!=wire:"+op, det())
+		case held && pl.digest != wire.digest:
+			rn.o.fail("adj-out-listing-attributes!=wire:"+op, det())
+		}
+		switch {
+		case held && (!inFilt || fl.filtered):
+			rn.o.fail("adj-out-filtered-listing:advertised-route-missing-or-flagged:"+op, det())
+		case !held && inFilt && !fl.filtered:
+			rn.o.fail("adj-out-filtered-listing:withdrawn-route-not-flagged:"+op, det())
+		}
+		if inFilt {
+			ask = append(ask, fmt.Sprintf("%d=%s", k, map[bool]string{true: "f", false: "a"}[fl.filtered]))
+		}
+		rn.o.stat("adjout_observer_checks", 1)
+		if inFilt && fl.filtered {
+			rn.o.stat("adjout_flagged_filtered", 1)
+		}
+	}
+	a := "adjoutf"
+	for _, x := range ask {
+		a += " " + x
+	}
+	if !rn.noModel {
+		rn.o.ask(a, "adjoutf %d", i)
 	}
 }
 
@@ -1522,13 +1621,13 @@ func (r *vRand) pickStr(xs ...string) string { return xs[r.intn(len(xs))] }
 // start has a set without a family: PrefixCondition.Evaluate answers false on the family
 // mismatch before looking at the option, nothing is rejected — the fresh evaluation differs.
 var c15KnownEmptiedPrefixSetInvert = append(append([]string{}, c15CorpusPeers...),
-	"pol imp 1 1 0 0 0 1 0 0 0 0 0 0 0 0 2 0 0 0 1 2 1 167837696 16 24 24 0 0 0",
+	"pol imp 1 1 0 0 0 1 0 0 0 0 0 0 0 0 2 0 0 0 1 2 1 167837696 16 24 24 0 0 0 0 0 0 0",
 	"up 0", "up 1", "up 2",
 	"ann 0 0 0 1 0 0 0 0 0 0 0 0 0 1 2 1 65001", // 10.1.0.0/24: in the set, accepted
 	"ann 1 1 0 2 0 0 0 0 0 0 0 0 0 1 2 1 65002", // 10.2.0.0/24: not in the set, rejected
 	"check",
 	"polmode 2",
-	"pol imp 1 1 0 0 0 1 0 0 0 0 0 0 0 0 2 0 0 0 1 2 0 0 0 0",
+	"pol imp 1 1 0 0 0 1 0 0 0 0 0 0 0 0 2 0 0 0 1 2 0 0 0 0 0 0 0 0",
 	"softinall",
 	"check",
 	"fresh soft-reset!=fresh:emptied-prefix-set-invert")
@@ -1546,10 +1645,10 @@ var c15CorpusPeers = []string{
 var c15Corpus = [][]string{
 	// defect 1 (fixed): AddDefinedSet{Replace} left the statements evaluating the old neighbor set
 	append(append([]string{}, c15CorpusPeers...),
-		"pol imp 1 1 0 0 0 0 0 1 0 0 0 0 0 0 0 2 0 0 0 0 0 0 0 0 0", // reject everything from peer 0
+		"pol imp 1 1 0 0 0 0 0 1 0 0 0 0 0 0 0 2 0 0 0 0 0 0 0 0 0 0 0 0 0", // reject everything from peer 0
 		"up 0", "up 1", "up 2",
 		"polmode 2",
-		"pol imp 1 1 0 0 0 0 0 1 1 0 0 0 0 0 0 2 0 0 0 0 0 0 0 0 0", // neighbor set edited in place: reject from peer 1 instead
+		"pol imp 1 1 0 0 0 0 0 1 1 0 0 0 0 0 0 2 0 0 0 0 0 0 0 0 0 0 0 0 0", // neighbor set edited in place: reject from peer 1 instead
 		"ann 0 0 0 1 0 0 0 0 0 0 0 0 0 1 2 1 65001",
 		"ann 1 1 0 2 0 0 0 0 0 0 0 0 0 1 2 1 65002",
 		"check", "fresh"),
@@ -1558,13 +1657,13 @@ var c15Corpus = [][]string{
 		"up 0", "up 2",
 		"ann 0 0 0 1 0 0 0 0 0 0 0 0 1 4294770689 1 2 1 65001",
 		"check",
-		"pol exp 1 1 1 0 1 4294770689 1 0 0 0 0 0 0 0 0 2 0 0 0 0 0 0 0 0 0", // reject 65533:1 toward everybody
+		"pol exp 1 1 1 0 1 4294770689 1 0 0 0 0 0 0 0 0 2 0 0 0 0 0 0 0 0 0 0 0 0 0", // reject 65533:1 toward everybody
 		"refresh 2",
 		"check", "fresh"),
 	// defect 3 (fixed): export policy on as-path-length >= 3, old best (length 2, 3 as sent) was
 	// sent, new best (length 1) is rejected, the raw old was rejected too -> no withdraw
 	append(append([]string{}, c15CorpusPeers...),
-		"pol exp 0 1 0 0 0 1 0 0 0 0 0 0 0 0 1 1 1 3 0 0 0 0 0 0",
+		"pol exp 0 1 0 0 0 1 0 0 0 0 0 0 0 0 1 1 1 3 0 0 0 0 0 0 0 0 0 0",
 		"up 0", "up 1", "up 2",
 		"ann 0 0 0 1 1 100 0 0 0 0 0 0 0 1 2 2 65001 100",
 		"check",
@@ -1574,13 +1673,13 @@ var c15Corpus = [][]string{
 	// AddDefinedSet without replace, a second mask-length range for the SAME prefix; the import
 	// policy rejects what the set matches; the older range must keep matching after soft reset in
 	append(append([]string{}, c15CorpusPeers...),
-		"pol imp 1 1 0 0 0 1 0 0 0 0 0 0 0 0 2 0 0 0 1 0 1 167772160 8 16 16 0 0 0",
+		"pol imp 1 1 0 0 0 1 0 0 0 0 0 0 0 0 2 0 0 0 1 0 1 167772160 8 16 16 0 0 0 0 0 0 0",
 		"up 0", "up 1", "up 2",
 		"ann 0 2 0 1 0 0 0 0 0 0 0 0 0 1 2 1 65001", // 10.3.0.0/16: rejected
 		"ann 1 0 0 2 0 0 0 0 0 0 0 0 0 1 2 1 65002", // 10.1.0.0/24: accepted
 		"check",
 		"polmode 2",
-		"pol imp 1 1 0 0 0 1 0 0 0 0 0 0 0 0 2 0 0 0 1 0 2 167772160 8 16 16 167772160 8 24 24 0 0 0",
+		"pol imp 1 1 0 0 0 1 0 0 0 0 0 0 0 0 2 0 0 0 1 0 2 167772160 8 16 16 167772160 8 24 24 0 0 0 0 0 0 0",
 		"softinall",
 		"check", "fresh"),
 	// class "several paths per prefix in the Adj-RIB-In" (ADD-PATH receive): path-id 1 is
@@ -1597,7 +1696,7 @@ var c15Corpus = [][]string{
 		"ann 1 1 2 3 0 0 2 0 0 0 0 0 1 4294770689 1 2 1 65002",
 		"ann 1 1 1 4 0 0 1 0 0 0 0 0 0 1 2 2 65002 65000",
 		"check",
-		"pol imp 1 1 1 0 1 4294770689 1 0 0 0 0 0 0 0 0 2 0 0 0 0 0 0 0 0 0",
+		"pol imp 1 1 1 0 1 4294770689 1 0 0 0 0 0 0 0 0 2 0 0 0 0 0 0 0 0 0 0 0 0 0",
 		"softin 0", "softin 1",
 		"check", "fresh"),
 	// class "defined set emptied in place and re-filled": an import statement rejects what a
@@ -1605,22 +1704,22 @@ var c15Corpus = [][]string{
 	// match; the last member of each is removed in place (the sets are then EMPTY: ANY matches
 	// nothing, INVERT everything), soft reset; then both are re-filled, soft reset
 	append(append([]string{}, c15CorpusPeers...),
-		"pol imp 1 1 1 0 1 4294770689 1 0 0 0 0 0 0 0 0 2 0 0 0 0 0 0 0 0 0",
-		"pol exp 0 1 1 2 1 4294770690 1 0 0 0 0 0 0 0 0 1 0 0 0 0 0 0 0 0 0",
+		"pol imp 1 1 1 0 1 4294770689 1 0 0 0 0 0 0 0 0 2 0 0 0 0 0 0 0 0 0 0 0 0 0",
+		"pol exp 0 1 1 2 1 4294770690 1 0 0 0 0 0 0 0 0 1 0 0 0 0 0 0 0 0 0 0 0 0 0",
 		"up 0", "up 1", "up 2",
 		"ann 0 0 0 1 0 0 0 0 0 0 0 0 1 4294770689 1 2 1 65001",
 		"ann 1 1 0 2 0 0 0 0 0 0 0 0 1 4294770690 1 2 1 65002",
 		"check",
 		"polmode 2",
-		"pol imp 1 1 1 0 0 1 0 0 0 0 0 0 0 0 2 0 0 0 0 0 0 0 0 0",
+		"pol imp 1 1 1 0 0 1 0 0 0 0 0 0 0 0 2 0 0 0 0 0 0 0 0 0 0 0 0 0",
 		"polmode 2",
-		"pol exp 0 1 1 2 0 1 0 0 0 0 0 0 0 0 1 0 0 0 0 0 0 0 0 0",
+		"pol exp 0 1 1 2 0 1 0 0 0 0 0 0 0 0 1 0 0 0 0 0 0 0 0 0 0 0 0 0",
 		"softbothall",
 		"check", "fresh",
 		"polmode 2",
-		"pol imp 1 1 1 0 1 4294770689 1 0 0 0 0 0 0 0 0 2 0 0 0 0 0 0 0 0 0",
+		"pol imp 1 1 1 0 1 4294770689 1 0 0 0 0 0 0 0 0 2 0 0 0 0 0 0 0 0 0 0 0 0 0",
 		"polmode 2",
-		"pol exp 0 1 1 2 1 4294770690 1 0 0 0 0 0 0 0 0 1 0 0 0 0 0 0 0 0 0",
+		"pol exp 0 1 1 2 1 4294770690 1 0 0 0 0 0 0 0 0 1 0 0 0 0 0 0 0 0 0 0 0 0 0",
 		"softbothall",
 		"check", "fresh"),
 }
@@ -1634,7 +1733,7 @@ func TestVerifC15(t *testing.T) {
 	}
 	c15Replay(t, o, c15KnownEmptiedPrefixSetInvert).w.stop()
 	r := &vRand{s: o.seed*15485863 + 15}
-	n := 160
+	n := 140
 	if o.thorough {
 		n = 1600
 	}
